@@ -97,8 +97,9 @@ fn check_c06(env: &batch::Env) -> i32 {
     let r2 = batch::run_batch(&c06::Decode1090Pos, env, batch::extra_runs(c06::Decode1090Pos.runs(env.tier), "VERIF_PROC_RUNS"));
     let pl = pipeline::Pipeline { prop: "C06" };
     let r3 = batch::run_batch(&pl, env, batch::extra_runs(pl.runs(env.tier), "VERIF_PIPELINE_RUNS"));
-    batch::write_evidence(env, "C06", &r1, &[("decode1090_process", &r2), ("pipeline", &r3)]);
-    batch::exit_of(&[&r1, &r2, &r3])
+    let r4 = batch::run_batch(&c06::PyBinding, env, batch::extra_runs(c06::PyBinding.runs(env.tier), "VERIF_PY_RUNS"));
+    batch::write_evidence(env, "C06", &r1, &[("decode1090_process", &r2), ("pipeline", &r3), ("python_binding_process", &r4)]);
+    batch::exit_of(&[&r1, &r2, &r3, &r4])
 }
 
 fn check_c17(env: &batch::Env) -> i32 {
@@ -153,6 +154,7 @@ fn verif_entry() {
             ("C10", "focused") => replay_or_det(&c10::C10, &cmd, &env),
             ("C10", "decode1090") => replay_or_det(&c10::Decode1090Proc, &cmd, &env),
             ("C06", "decode1090") => replay_or_det(&c06::Decode1090Pos, &cmd, &env),
+            ("C06", "python") => replay_or_det(&c06::PyBinding, &cmd, &env),
             ("C10", "grid") => replay_or_det(&c10::C10Grid, &cmd, &env),
             ("C17", "sequences") => replay_or_det(&c17::C17Seq, &cmd, &env),
             ("C12", "focused") => replay_or_det(&c12::C12, &cmd, &env),
